@@ -8,25 +8,35 @@ for ln in (ROOT / "properties.jsonl").read_text().splitlines():
     d = json.loads(ln)
     TITLES[d["id"]] = d["title"]
 
-# property -> (technique, level text, level_note, design_ref)
-CLAIMED = {
-    "C12": (
-        "Lean 4 proof (run(layer)=sem for simple/staged/disk shuffle, all sizes) + exact graph correspondence",
-        "Machine-checked theorems over an executable Lean model of SimpleShuffle/TaskShuffle/DiskShuffle._layer for all "
-        "(n_in, n_out, max_branch, partition subsets); the model is tied to the code on every run by exact equality of the "
-        "generated task graphs over an enumerated parameter space, a proven-hypothesis check of the float stage arithmetic "
-        "and helper-spec conformance; real shuffles are executed as support and as the failing-input search.",
-        "Trusted: Lean kernel + standard axioms; Lean specs of dask's shuffle_group/_2/_get/collect and of the hash "
-        "(equal values after cast hash equally); the renderers on both sides of the line protocol. Row order inside an "
-        "output partition only up to permutation.",
-        "DESIGN.md §6 C12",
-    ),
+# claimed properties -> technique (the level text and note come from the props module itself)
+TECHNIQUE = {
+    "C05": "Lean 4 proof (confluence of all topological orders / multi-worker schedules over key-indexed graphs) + proven checker on real graphs; purity sampled",
+    "C09": "Lean 4 proof (LayerOK layers merge into a closed, acyclic graph; checker soundness) + exact graph correspondence + proven checker on real graphs",
+    "C12": "Lean 4 proof (run(layer)=sem for simple/staged/disk shuffle, all sizes) + exact graph correspondence",
+    "C13": "Lean 4 proof (fewer/more/size concat preservation, proven plan validator, planner for strict vectors) + exact graph correspondence + validator on all enumerated real plans",
 }
+DESIGN_REF = {k: f"DESIGN.md §6 {k}" for k in TECHNIQUE}
+
+
+def claimed():
+    import importlib
+
+    out = {}
+    for pid, tech in TECHNIQUE.items():
+        mod = importlib.import_module(f"harness.props.{pid.lower()}")
+        text = mod.EXPLANATION
+        note = "Trusted: Lean 4.33 kernel + axioms propext/Classical.choice/Quot.sound; " + "; ".join(mod.TRUSTED)
+        if getattr(mod, "PARTIAL", None):
+            note += " | Partial / not exhibited by the model: " + "; ".join(mod.PARTIAL)
+        out[pid] = (tech, text, note, DESIGN_REF[pid])
+    return out
+
 
 NOT_YET = "check not built yet in this round (planned, see DESIGN.md §10); no claim is made until its theorem and tie exist"
 
 
 def main():
+    CLAIMED = claimed()
     checks = []
     for pid in sorted(CLAIMED):
         tech, text, note, ref = CLAIMED[pid]
